@@ -62,13 +62,13 @@ func (e *c14Env) buildOps() []c14Op {
 // c14State is the canonical state after a program.
 type c14State struct {
 	Root    int
-	Dead    bool           // the filter process ended inside an exchange
-	Bad     bool           // an oracle failed on the way here (not expanded further)
-	Delayed map[string]int // path -> payload of the request answered status=delayed and not yet retrieved
-	QAlive  bool           // mirror of the filter's `q != nil` (delay capability and a smudge since the last completed list phase)
-	Store   []string       // observed local store
+	Dead    bool              // the filter process ended inside an exchange
+	Bad     bool              // an oracle failed on the way here (not expanded further)
+	Delayed map[string]int    // path -> payload of the request answered status=delayed and not yet retrieved
+	QAlive  bool              // mirror of the filter's `q != nil` (delay capability and a smudge since the last completed list phase)
+	Store   []string          // observed local store
 	Used    map[string]string // paths smudged in the current checkout (since process start / the last completed list phase) -> "s" plain, "d" with can-delay=1
-	Depth   int            // requests before/between list phases (not part of the key)
+	Depth   int               // requests before/between list phases (not part of the key)
 }
 
 func (s *c14State) key() string {
@@ -505,10 +505,10 @@ func c14Keys(m map[string]int) []string {
 // programs <-> choice vectors, BFS
 
 type c14Search struct {
-	e        *c14Env
-	ops      []c14Op
-	depth    int // requests outside list phases
-	fullUpTo int // request positions < fullUpTo use the full alphabet (all payloads, all packetisations)
+	e            *c14Env
+	ops          []c14Op
+	depth        int // requests outside list phases
+	fullUpTo     int // request positions < fullUpTo use the full alphabet (all payloads, all packetisations)
 	allRootsFull bool
 	thorough     bool // thorough tier: larger core alphabet
 }
@@ -637,6 +637,7 @@ type c14Info struct {
 	DeadStates   int              `json:"terminal_states_process_ended"`
 	RefRuns      int64            `json:"one_shot_reference_runs"`
 	MaxProgram   int              `json:"longest_program_ops"`
+	Samples      []interface{}    `json:"-"`
 }
 
 func (s *c14Search) bfs(deadline time.Time, workers int) (*vx.Stats, c14Info) {
@@ -715,8 +716,20 @@ func (s *c14Search) bfs(deadline time.Time, workers int) (*vx.Stats, c14Info) {
 		s.e.srv.ResetRequests()
 		return out[:n]
 	}
+	samples := map[string]interface{}{}
 	absorb := func(d done) (c14Node, bool) {
 		res := d.res
+		// one written-out case per category (kind of the last step x how it ended), preferring longer programs
+		if res.Sample != nil && len(d.run.Steps) > 0 {
+			cat := strings.SplitN(res.Outcome, "/", 2)[0]
+			if strings.HasPrefix(res.Outcome, "finish") {
+				cat = fmt.Sprintf("finish/%d-delayed/%s", len(d.task.node.st.Delayed), res.Outcome[strings.LastIndex(res.Outcome, " ")+1:])
+			}
+			cat = fmt.Sprintf("%s/ops=%d", cat, len(d.run.Steps))
+			if _, ok := samples[cat]; !ok && len(samples) < 40 {
+				samples[cat] = map[string]interface{}{"category": cat, "case": res.Sample, "steps": d.run.Steps}
+			}
+		}
 		// keep at most 3 executions per fingerprint (the shortest come first in BFS order)
 		var keep []vx.Violation
 		for _, v := range res.Violations {
@@ -811,6 +824,18 @@ func (s *c14Search) bfs(deadline time.Time, workers int) (*vx.Stats, c14Info) {
 		level = next
 	}
 	info.States = len(seen)
+	var cats []string
+	for c := range samples {
+		cats = append(cats, c)
+	}
+	sort.Strings(cats)
+	for i, c := range cats {
+		if len(cats) <= 14 || i%(len(cats)/14+1) == 0 || strings.Contains(c, "ops=4") || strings.Contains(c, "ops=5") {
+			if len(info.Samples) < 16 {
+				info.Samples = append(info.Samples, samples[c])
+			}
+		}
+	}
 	info.Closure = complete && st.Exhaustive
 	s.e.seqMu.Lock()
 	info.RefRuns = s.e.refRuns
@@ -980,6 +1005,9 @@ func c14ProgramsScenario(c *vx.Check, extra map[string]interface{}) vx.Part {
 		fmt.Printf("  level %v\n", l)
 	}
 	extra["bfs"] = info
+	if len(info.Samples) > 0 {
+		extra["samples"] = info.Samples
+	}
 	extra["outcome_histogram_programs"] = st.Outcomes
 	return vx.Part{Scenario: "programs", Stats: st, Exec: exec}
 }
@@ -1043,6 +1071,9 @@ func c14Stress(spec string) {
 }
 
 func TestVerifC14(t *testing.T) {
+	if c14bWorker() { // this process is a worker of part (b)'s pool (controlled-scheduler executions)
+		return
+	}
 	if spec := os.Getenv("VERIF_C14_STRESS"); spec != "" {
 		c14Stress(spec)
 		os.Exit(0)
